@@ -1,5 +1,6 @@
 """CrossHair conditions for C13: FilteredConfigParser views equal the specification filter."""
 import sys, os, io
+import collections
 sys.path.insert(0, os.path.dirname(os.path.dirname(os.path.abspath(__file__))))
 from symx import shims
 shims.import_repo()
@@ -66,6 +67,7 @@ TARGETS = {n: "_filtered_config_parser.FilteredConfigParser.__init__/_check_tupl
            for n in ("one_view_charged", "one_view_pair", "one_view_eam", "one_view_fs", "two_views_pair", "two_views_eam", "two_views_fs")}
 TARGETS.update({n: "FilteredConfigParser views handed to Configuration.read_from_parser (EAM_Potential_Builder(_FS), Pair_Potential_Builder, tabulation factories)"
                 for n in ("two_tabs_eam", "two_tabs_fs", "two_tabs_pair", "two_tabs_eam_after_plain", "two_tabs_fs_after_plain", "two_tabs_pair_after_plain")})
+TARGETS["one_view_containers"] = TARGETS["one_view_pair"]
 
 
 def labels(idx):
@@ -156,6 +158,55 @@ def one_view_charged(idx: List[int], exclude: bool) -> bool:
   """
   # species labels are arbitrary text: charges ('Ce4+'), labels that are prefixes of others ('Ce')
   return _one(3, idx, exclude)
+
+
+CONTAINERS = ["list", "tuple", "set", "frozenset", "dict-keys", "generator-free-iterable"]
+
+
+def _as_container(species, kind):
+  if kind == "list":
+    return list(species)
+  if kind == "tuple":
+    return tuple(species)
+  if kind == "set":
+    return set(species)
+  if kind == "frozenset":
+    return frozenset(species)
+  if kind == "dict-keys":
+    return dict((s_, 1) for s_ in species).keys()
+  return collections.deque(species)
+
+
+def _one_container(model, idx, exclude, kind):
+  cp, names = views_of(model)
+  species = mlabels(model, idx)
+  c = _as_container(species, kind)
+  view = FilteredConfigParser(cp, exclude=c) if exclude else FilteredConfigParser(cp, include=c)
+  return check_view(view, cp, names, species, exclude)
+
+
+def one_view_containers(model: int, idx: List[int], exclude: bool, kind: int) -> bool:
+  """
+  pre: 0 <= model < 3 and len(idx) <= 2 and all(0 <= i < 4 for i in idx) and 0 <= kind < 6
+  post: _
+  """
+  # the species may be handed over in any collection (list, tuple, set, frozenset, dict keys, deque)
+  m = [0, 1, 2][model]
+  k = concrete(CONTAINERS[kind])
+  return _one_container(m, idx, exclude, k)
+
+
+def _rp_containers(model, idx, exclude, kind):
+  cp, names = views_of(model)
+  species = mlabels(model, idx)
+  c = _as_container(species, CONTAINERS[kind])
+  view = FilteredConfigParser(cp, exclude=c) if exclude else FilteredConfigParser(cp, include=c)
+  for n in names:
+    got, want = getattr(view, n), spec(getattr(cp, n), species, exclude)
+    if got != want:
+      return True, "FilteredConfigParser(%s=%r given as a %s).%s keeps %r; deleting by hand keeps %r" % (
+        "exclude" if exclude else "include", species, CONTAINERS[kind], n, [e.species for e in got], [e.species for e in want]), "container-%s" % CONTAINERS[kind]
+  return False, "view agrees with the specification", "agree"
 
 
 def _two(model, idx1, ex1, idx2, ex2, second_first):
@@ -505,6 +556,7 @@ def _rp_two(model, idx1, ex1, idx2, ex2, second_first):
 
 
 REPLAY = dict(
+  one_view_containers=_rp_containers,
   two_tabs_eam=lambda idx1, ex1, idx2, ex2, second_first: _rp_tabs(0, idx1, ex1, idx2, ex2, second_first, False),
   two_tabs_fs=lambda idx1, ex1, idx2, ex2, second_first: _rp_tabs(1, idx1, ex1, idx2, ex2, second_first, False),
   two_tabs_pair=lambda idx1, ex1, idx2, ex2, second_first: _rp_tabs(2, idx1, ex1, idx2, ex2, second_first, False),
